@@ -324,6 +324,9 @@ def judge(ctx, c, rm):
     ctx.sample(c["line"])
     if c["bad"]:
         ctx.signal("O", sig + ":crash", c["bad"], case=c["line"]); return
+    if c["kind"] == "extended":
+        k = len(weak_in_pattern_rows(c))
+        if k: ctx.count("extended_cases_with_weak_connection_into_pattern"); ctx.count("extended_rows_with_weak_connection_into_pattern", k)
     # the property quantifies over M-matrix-like operators; a level-1 Galerkin operator with a positive off-diagonal is
     # outside it (there the sequential extended routine adds coef*a_ki to the diagonal without the sign test the
     # parallel one applies): only the model/implementation comparison is kept for such inputs
@@ -439,6 +442,10 @@ def level1_cases(ctx, lines):
             S = rows_of("S1"); Pp = rows_of("PPAR")
         except KeyError as e:
             base.update(bad="level-1 output refers to unknown global id %s" % e, n=n, rows=[], states=states, mask=[], cuts=cuts, vars=[0] * n)
+            cases.append(base); continue
+        if any(isinstance(v, str) for r in A for _, v in r):
+            base.update(bad="the library's own level-1 operator (direct interpolation + Galerkin product on level 0) has a non-finite entry",
+                        n=n, rows=[], states=states, mask=[], cuts=cuts, vars=[0] * n)
             cases.append(base); continue
         mask = sorted((i, j) for i, r in enumerate(S) for (j, _) in r if j != i)
         rk, nc = rank_of(states)
